@@ -70,6 +70,56 @@ func famTry() {
 		}
 		trees = append(trees, t)
 	}
+	// tall and wide programs: an operand that may be unavailable sits behind 60 … 100 pending operands (operand-stack
+	// slots far above anything a depth-5 tree reaches), in a wide operator and at the bottom of a right-leaning chain,
+	// below an `or` / `and` that an available operand decides or does not
+	for i := 0; i < 12+*fN/100; i++ {
+		k := []int{60, 63, 64, 65, 66, 70, 100}[r.Intn(7)]
+		last := "m" // the only occurrence of m: when m is the unavailable one, the only unknown sits at slot k
+		wide := op(g.pick("+", "add"))
+		for j := 0; j < k; j++ {
+			wide.Kids = append(wide.Kids, []*Tree{vr("n"), cst(int64(1))}[r.Intn(2)])
+		}
+		wide.Kids = append(wide.Kids, vr(last))
+		chain := vr(last)
+		for j := 0; j < k; j++ {
+			chain = op("+", []*Tree{vr("n"), cst(int64(1))}[r.Intn(2)], chain)
+		}
+		// the same with and/or, whose unknown operands do stay on the operand stack: z occurs once, last or last but one
+		bo := []string{"or", "and"}[r.Intn(2)]
+		neutral := func() *Tree { // an operand that does not decide a `bo`
+			if bo == "or" {
+				return []*Tree{op("<", vr("n"), cst(int64(-9))), cst(false), op("!=", vr("n"), vr("n"))}[r.Intn(3)]
+			}
+			return []*Tree{op(">", vr("n"), cst(int64(-9))), cst(true), op("=", vr("n"), vr("n"))}[r.Intn(3)]
+		}
+		bwide := op(g.pick(bo))
+		for j := 0; j < k; j++ {
+			bwide.Kids = append(bwide.Kids, neutral())
+		}
+		bwide.Kids = append(bwide.Kids, vr("z"))
+		if r.Intn(2) == 0 {
+			bwide.Kids = append(bwide.Kids, vr("x"))
+		}
+		bchain := op(bo, neutral(), vr("z"))
+		for j := 0; j < k; j++ {
+			bchain = op(bo, neutral(), bchain)
+		}
+		if i%4 >= 2 {
+			trees = append(trees, []*Tree{bwide, bchain, op("not", bwide), op("if", bchain, vr("y"), vr("x"))}[r.Intn(4)])
+			continue
+		}
+		body := []*Tree{wide, chain}[i%2]
+		cmp := op(g.pick(">", "gt", "!="), body, cst(int64(-5)))
+		switch i % 3 {
+		case 0:
+			trees = append(trees, op(g.pick("or", "||", "|"), cmp, vr("x")))
+		case 1:
+			trees = append(trees, op(g.pick("and", "&&", "&"), vr("y"), cmp))
+		default:
+			trees = append(trees, op("if", vr("x"), cmp, op("not", cmp)))
+		}
+	}
 	seen := map[string]bool{}
 	id := *fIDBase - 1
 	for ti, t := range trees {
